@@ -343,5 +343,10 @@ class MoveChildTo(Spec):
         return [("canary", z3.BoolVal(out.post["log"] == []))]
 
 
+def extra_checks(rep, tier):
+    from contracts import grid_dirnode
+    grid_dirnode.grid_check(rep, tier, "C20")
+
+
 def contracts(tier):
     return [UpdateMetadata(), AdderModify(), DeleterModify(), MetadataSetterModify(), MoveChildTo()]
